@@ -32,7 +32,7 @@ def run_one(name, props):
         if r.returncode != 0:
             res["error"] = "patch does not apply: " + r.stdout[-400:]
             return res
-        env = dict(os.environ, VERIF_REPO=d, VERIF_SELFTEST="1")
+        env = dict(os.environ, VERIF_REPO=d, VERIF_SELFTEST="1", VERIF_EVIDENCE_DIR=os.path.join(d, ".ev"))
         for prop in props:
             r = subprocess.run([os.path.join(VERIF, "check"), prop], env=env, stdout=subprocess.PIPE, stderr=subprocess.STDOUT, text=True, cwd=VERIF)
             if "facts extraction failed" in r.stdout:
